@@ -835,7 +835,10 @@ def run(chk, only=None):
     verb = os.environ.get("VERIF_C07_MODEL_CMD", "findcycle")
     if verb != "findcycle":
         chk.notes["self_test_model_verb"] = verb
-    chk.proof_gate()
+    chk.proof_gate(also=["impl"])
+    # small-step model of the engine loop (Engine/Impl.v): exact-interleaving tie, theorems of Props/Properties_impl.v
+    import props.impl as impl
+    impl.phase(chk, {"corpus", "cyclic"})
     rng = chk.rng
     wd = os.path.join(vlib.WORK, "c07-%s" % chk.tier)
     os.makedirs(wd, exist_ok=True)
